@@ -33,7 +33,7 @@ def run(rec, cfg):
     MR.CHECKS.update({"structure"})
     MR.attach_apply()
     rng = cfg.rng("c07")
-    rules = MR.rule_instances()
+    rules = RC.with_flippers(MR.rule_instances())
     n = cfg.scale(200, 25000)
     if cfg.shard == 0:
         for t in odd_trees(rng):
@@ -46,6 +46,7 @@ def run(rec, cfg):
             break
         big = src == "big-text"
         root = RC.parse_start(text, allow_big=big)
+        rules = RC.flip(rules, rng)
         use = RC.rules_for(src, rules)
         if root is None:
             continue
